@@ -103,7 +103,10 @@ def check_bytes(task):
         with open(target, "r+b") as f:
             for pos in range(lo, hi):
                 orig = data[pos]
-                for variant, newb in (("xor", orig ^ 0xFF), ("inc", (orig + 1) & 0xFF)):
+                variants = [("xor", orig ^ 0xFF), ("inc", (orig + 1) & 0xFF)]
+                if manifest:
+                    variants.append(("case", orig ^ 0x20))  # letter case flip: survives many parsers
+                for variant, newb in variants:
                     f.seek(pos)
                     f.write(bytes([newb]))
                     f.flush()
@@ -462,7 +465,7 @@ def run(tier, seed):
         "same-index substitution by another record, foreign extra container, duplicate under a second name, fork replace / fork both, "
         "duplicated patch_uuid (every pair j<k, links kept consistent), manifest removed/foreign/older/extended/truncated; one additional record per class with a 150 kB dataset "
         "(structural faults; bytes: first and last 2 KiB of every large container completely, stride 4099 in between); byte faults: every payload byte (offset>=1024) of every container and every byte of "
-        "the newest manifest, XOR 0xFF and +1" + (" for one 2- and one 3-container record per class" if q else " for all records")
+        "the newest manifest, XOR 0xFF and +1 (manifest also XOR 0x20)" + (" for one 2- and one 3-container record per class" if q else " for all records")
         + "; non-trivial = a fault that makes the set incoherent (must be refused); positive controls = coherent sets that must open",
         "samples": [{"cfg": recs[len(recs) // 2][0], "history": recs[len(recs) // 2][1], "fault": ["remove", 0]}, {"cfg": btasks[0][0], "history": btasks[0][1], "fault": ["byte", btasks[0][2], btasks[0][3], "xor"]}],
     }
